@@ -51,13 +51,14 @@ def check(prog: Program, tier: str) -> Result:
     _tmp = Result("C05", "", "")
     _c05._r5_6(prog, _tmp)
     res.adopt(_tmp, {"R5.6"}, "R6.6", "with parallel workers, state kept between calls makes the output depend on which files a worker was given before")
+    _r6_8(prog, res)
     # R6.7: constant folding happens in the formatter's process, under ITS hash seed - decided by the C15 check (R15.9), adopted
     from . import c15 as _c15
     from ..evaluator import Evaluator as _Ev
     _tmp2 = Result("C15", "", "")
     _c15._r15_9(prog, _tmp2, _Ev(prog))
     res.adopt(_tmp2, {"R15.9"}, "R6.7", "a folded value that depends on the hash seed of the formatting process makes the output differ from run to run")
-    res.floors.update({"R6.1": 5, "R6.2": 3, "R6.3": 3, "R6.4": 1, "R6.7": 2})
+    res.floors.update({"R6.1": 5, "R6.2": 3, "R6.3": 3, "R6.4": 1, "R6.7": 2, "R6.8": 1})
     return res
 
 
@@ -319,6 +320,37 @@ def _unordered_through(e: ast.AST, fn: Func, _depth: int = 0) -> Optional[ast.AS
     return None
 
 
+def _r6_8(prog: Program, res: Result) -> None:
+    """core.walk / walk_wildcard go through the ALTERNATIVES of a tuple template one after the other: the order of the
+    alternatives is the order of the results.  A tuple made from a set (`tuple({*A, *B})`, `tuple(set(..))`) of classes or
+    templates is ordered by memory address - another order in every process - and rules that take the first match, or number
+    their transactions in match order, then take different paths.  Instance: every template argument of a walk / walk_wildcard
+    call (directly or through one local); obligation: it is not a sequence made from an unordered collection (sorted(..) and
+    dict.fromkeys(..) give a reproducible order)."""
+    n = 0
+    for fn in prog.funcs.values():
+        for c in prog.calls_in(fn):
+            d = (prog.dotted(c.func) or "").split(".")[-1]
+            if d not in ("walk", "walk_wildcard") or len(c.args) < 2:
+                continue
+            r = prog.resolve_call(c.func, fn.mod, fn)
+            if not (r and r[0] == "fn" and r[1].mod.name == "core"):
+                continue
+            t = c.args[1]
+            if isinstance(t, ast.Name):
+                defs = [v for _s, v in bindings(fn).get(t.id, []) if v is not None]
+                t = defs[0] if len(defs) == 1 else t
+            if not (isinstance(t, ast.Call) and isinstance(t.func, ast.Name) and t.func.id in ("tuple", "list") and len(t.args) == 1):
+                continue
+            n += 1
+            src = _unordered(t.args[0], fn)
+            res.decide(src is None, "R6.8", fn.loc(c), fn.fq, short(c, 70),
+                       "the alternatives come in a reproducible order" if src is None else
+                       f"the alternatives are `{short(t, 50)}`: a sequence made from a set, ordered by the addresses of the classes - the matches come in another order in every process")
+    if n == 0:
+        res.ok("R6.8", "pyrefact/", "package", "tuple(..) / list(..) templates handed to walk", "none", trivial=True)
+
+
 def _r6_5(prog: Program, res: Result) -> None:
     """A loop over a set visits its elements in hash order: for strings that is the hash seed, for syntax nodes the
     memory address (different between processes, and within one process once a cached tree was evicted and re-parsed).
@@ -516,6 +548,9 @@ def _callers_in_pipeline(prog: Program, fn: Func, fc: Func) -> List[Tuple[str, s
 from ..selftest import Variant  # noqa: E402
 
 VARIANTS = [
+    Variant("block-types-from-a-set", "FIRE", "core",
+            "    types_with_blocks = tuple(\n        dict.fromkeys((*constants.AST_TYPES_WITH_BODY, *constants.AST_TYPES_WITH_ORELSE))\n    )\n",
+            "    types_with_blocks = tuple({*constants.AST_TYPES_WITH_BODY, *constants.AST_TYPES_WITH_ORELSE})\n", "R6.8"),
     Variant("statements-ordered-by-line-only", "FIRE", "fixes",
             "            name: sorted(mentions, key=lambda node: (node.lineno, node.col_offset))", "            name: sorted(mentions, key=lambda node: node.lineno)", "R6.4"),
     Variant("conditions-folded-in-set-order", "FIRE", "symbolic_math",
